@@ -11,9 +11,16 @@ def ec_dict(chars):
     return d
 
 
+def safe_name(n):
+    """a name as it travels in the line protocol (see Main.lean safeName)"""
+    if n is None:
+        return '?'
+    return n if all((ch.isascii() and ch.isalnum()) or ch == '_' for ch in n) else 'x' + vlib.hexs(n)
+
+
 def tree(children):
     from hl7apy.core import Group
-    return ','.join((c.name or '?') if not isinstance(c, Group) else '%s(%s)' % (c.name, tree(c.children)) for c in children)
+    return ','.join(safe_name(c.name) if not isinstance(c, Group) else '%s(%s)' % (safe_name(c.name), tree(c.children)) for c in children)
 
 
 def seg(job):
